@@ -65,7 +65,7 @@ def gen_cases(ck):
     #     call lists x <= 2 cut points, polled after every event; all poll masks for a sample
     pairs = [(a, b) for a in MENU for b in MENU]
     rng.shuffle(pairs)
-    n_pairs = 14 if quick else 40
+    n_pairs = 20 if quick else 40
     for calls_a, calls_b in pairs[:n_pairs]:
         tags = sg.Tags()
         fa, fb = frames_for(rng, tags, 0, calls_a), frames_for(rng, tags, 1, calls_b)
@@ -87,7 +87,7 @@ def gen_cases(ck):
                     {"calls": [calls_a, calls_b], "cuts": [ca, cb], "mask": mask})
     # (c) seeded random: up to 4 connections x up to 5 calls, any cuts, any merge, any polls
     kinds = ["Echo", "Echo", "Fail", "Count", "Ping", "Total", "Sub"]
-    for i in range(1500 if quick else 12000):
+    for i in range(2500 if quick else 12000):
         nconn = rng.randrange(1, 5)
         tags = sg.Tags()
         seqs, hyp = [], []
